@@ -2,6 +2,6 @@
    Only the standard directives of ExtrOcamlBasic / ExtrOcamlZBigInt are used.
    Compiled with cwd = /verif/ocaml/c01 so that model.ml lands there. *)
 From Coq Require Import Extraction ExtrOcamlBasic ExtrOcamlZBigInt.
-Require Import V.base.Fld V.base.Bytes V.model.SignDkls V.model.SignLindell22 V.model.SignBls V.model.SignLindell17.
+Require Import V.base.Fld V.base.Bytes V.model.SignDkls V.model.SignLindell22 V.model.SignBls V.model.SignLindell17 V.model.SignCggmp.
 Extraction Blacklist List String Nat.
-Extraction "model.ml" scalar_of_tape dkls_inputs_Z dkls_run_Z l22_inputs_Z l22_run_Z bls_run_Z l17_inputs_Z l17_run_Z.
+Extraction "model.ml" scalar_of_tape dkls_inputs_Z dkls_run_Z l22_inputs_Z l22_run_Z bls_run_Z l17_inputs_Z l17_run_Z cggmp_inputs_Z cggmp_run_Z.
